@@ -8,3 +8,4 @@ from . import ip_core    # noqa: E402,F401
 from . import juniper    # noqa: E402,F401
 from . import as_numbers  # noqa: E402,F401
 from . import secrets     # noqa: E402,F401
+from . import cli         # noqa: E402,F401
